@@ -539,6 +539,15 @@ impl serde::Serializer for MapKeySerializer {
         self.serialize_str(itoa::Buffer::new().format(value))
     }
 
+    // (a key is a string: every 128-bit integer has one, as in the text route)
+    fn serialize_i128(self, value: i128) -> Result<Value> {
+        self.serialize_str(itoa::Buffer::new().format(value))
+    }
+
+    fn serialize_u128(self, value: u128) -> Result<Value> {
+        self.serialize_str(itoa::Buffer::new().format(value))
+    }
+
     fn serialize_f32(self, value: f32) -> Result<Value> {
         if value.is_finite() {
             self.serialize_str(ryu::Buffer::new().format_finite(value))
